@@ -429,6 +429,18 @@ func (cs *clientStream) doHttpCall(transport http.RoundTripper, req *http.Reques
 	var rErr error
 	rMuHeld := false
 
+	// The rest of the reply is drained last, after the completion below has
+	// been published and rMu released: draining waits for the server to end
+	// its reply, and the server may in turn be waiting for the end of our
+	// request body, which only the completion (or the caller) closes.
+	var replyBody io.ReadCloser
+	defer func() {
+		if replyBody != nil {
+			ioutil.ReadAll(replyBody)
+			replyBody.Close()
+		}
+	}()
+
 	defer func() {
 		verifPoint("http.rd.fin")
 		if !rMuHeld {
@@ -485,10 +497,7 @@ func (cs *clientStream) doHttpCall(transport http.RoundTripper, req *http.Reques
 		onReady(statusFromContextError(err), nil)
 		return
 	}
-	defer func() {
-		ioutil.ReadAll(reply.Body)
-		reply.Body.Close()
-	}()
+	replyBody = reply.Body
 
 	if len(cs.copts.Peer) > 0 {
 		cs.copts.SetPeer(getPeer(cs.baseUrl, reply.TLS))
